@@ -28,6 +28,28 @@ Theorem eventually_handled :
 Proof. exact eventually_handled_pf. Qed.
 Print Assumptions eventually_handled.
 
+(* per address: the requests observed by its generators (concatenated over restarts) are exactly the datagrams of
+   that address in arrival order, each once, minus the documented discards (hist entries flagged false: the datagram
+   taken by a generator that returned/raised before its first yield -- added only by l_gfinish at PGen0); whatever has
+   not been consumed yet is still there, in order: held by a starting generator, queued, or with a handler task that has
+   not run yet.  Nothing is lost, duplicated or reordered. *)
+Theorem fifo_exactly_once :
+  forall (ls : list label) (s : state) (o : list obs) (a : addr),
+    trace state0 ls = Some (s, o) ->
+    received a o = map fst (filter snd (hist (cl s a))) /\
+    map fst (hist (cl s a)) ++ held (cl s a) ++ queue (cl s a) ++ proj a (spawned s) = arrivals a ls.
+Proof. exact fifo_exactly_once_pf. Qed.
+Print Assumptions fifo_exactly_once.
+
+(* frame property: a transition about address a changes nothing of any other address b -- neither its _ClientData and
+   coroutine state nor its not-yet-started handler tasks ("slow handling of one client does not block others") *)
+Theorem clients_independent :
+  forall (s : state) (l : label) (s' : state) (o : list obs) (a b : addr),
+    step s l = Some (s', o) -> label_addr s l = Some a -> b <> a ->
+    cl s' b = cl s b /\ proj b (spawned s') = proj b (spawned s).
+Proof. exact clients_independent_pf. Qed.
+Print Assumptions clients_independent.
+
 (* non-vacuity: a run with a suspension, queueing, a return before the first yield (discard), a restart by the
    task-done hook, and a timeout is a trace of the model *)
 Example c16_witness :
